@@ -41,6 +41,11 @@ def _build():
     reg.add(S.schema2("cat3_x_cat2_bigw", A3, B2, weighted=True), BIG, configs=[{"rows": rsub}], quick=3, thorough=4)
     reg.add(S.schema2("cat2_x_cat3_bigw", B2, A3, weighted=True), BIG, configs=[{"cols": csub}], quick=3, thorough=4)
     reg.add(S.schema2("mr_x_cat2_bigw", S.mr("m", 2), B2, weighted=True), BIG, configs=[{}], quick=2, thorough=3)
+    # deeper on a reduced table: a subtotal column whose residuals are all exactly zero next to a body of rank 2
+    B3n = S.cat("b", 3, "first")
+    reg.add(S.schema2("cat2_x_cat3_sub_unw", A2, B3n), configs=[{"cols": [subtotal("c23", [2, 3], anchor="top", sid=1)]},
+                                                                 {"cols": [subtotal("c13", [1, 3], anchor=2, sid=1)]}],
+            quick=4, thorough=6)
     reg.mult = {"cat2_x_cat2_mult": (1, 3)}
     P = reg.profiles["cat2_x_cat2_mult"]
     reg.profiles["cat2_x_cat2_mult"] = [(p, m) for p in P for m in (1, 3)]
